@@ -108,19 +108,22 @@ def h_parse(L, parts):
     return 'typed:' + ty
 
 
-def h_build(L, ty, n, with_ns):
+def h_build(L, ty, n, with_ns, via='ctor'):
     I = L.I
     name = L.sym_bytes('h', n)
     L.assume_utf8(name)
     steps = [('with_namespace', list(b'ns'))] if with_ns else []
-    req = {'op': 'build_typed', 'T': 'Purl', 'type': SymStr(list(ty.encode())), 'name': SymStr(name),
+    req = {'op': 'build_typed', 'T': 'Purl', 'type': SymStr(list(ty.encode())), 'name': SymStr(name), 'via': via,
            'steps': [[m] + [SymStr(a) for a in args] for m, *args in steps]}
     L.expect_native(req, {})
     try:
-        b = b_new(I, 'Purl', mk_type(I, 'Purl', list(ty.encode())), name)
-        for m, *args in steps:
-            b = b_call(I, 'Purl', b, m, *args)
-        r = b_build(I, 'Purl', b)
+        if via == 'new':
+            r = p_new(I, 'Purl', mk_type(I, 'Purl', list(ty.encode())), name)
+        else:
+            b = b_new(I, 'Purl', mk_type(I, 'Purl', list(ty.encode())), name, via)
+            for m, *args in steps:
+                b = b_call(I, 'Purl', b, m, *args)
+            r = b_build(I, 'Purl', b)
     except Panic as e:
         L.fail('panic: %s' % e.msg)
         return 'panic'
@@ -170,6 +173,9 @@ def queries(tier):
             qs.append(Query('build %s name=⟦%d⟧ +ns' % (ty, n), h_build, {'ty': ty, 'n': n, 'with_ns': True}, bound='Purl::builder(%s, every valid-UTF-8 string of %d bytes).with_namespace("ns").build()' % (ty, n)))
         for n in lens(2):
             qs.append(Query('build %s name=⟦%d⟧' % (ty, n), h_build, {'ty': ty, 'n': n, 'with_ns': False}, bound='Purl::builder(%s, every valid-UTF-8 string of %d bytes).build()' % (ty, n)))
+        for n in lens(3, 2):
+            qs.append(Query('Purl::new %s name=⟦%d⟧' % (ty, n), h_build, {'ty': ty, 'n': n, 'with_ns': False, 'via': 'new'}, bound='Purl::new(%s, every valid-UTF-8 string of %d bytes)' % (ty, n)))
+        qs.append(Query('Purl::builder %s name=⟦2⟧ +ns' % ty, h_build, {'ty': ty, 'n': 2, 'with_ns': True, 'via': 'builder'}, bound='GenericPurl::builder(%s, every valid-UTF-8 string of 2 bytes).with_namespace("ns").build()' % ty))
     for n in lens(5 if th else 4, 1):
         addp(['pkg:', ('hole', 'h', n), '/ns/n'])
     addp(['pkg:', ('hole', 'h', 3), '/ns/n@1?k=v#s'])
